@@ -4449,10 +4449,11 @@ class ParseCtx:
             raise UndefinedReferenceError(None, from_tree)
 
         # check if in bound argument stack
-        if not isinstance(from_tree, ResolvedIdentifier):
-            for entry in reversed(self.bound_argument_stack):
-                if (context, name) in entry:
-                    return entry[(context, name)]
+        if not isinstance(from_tree, ResolvedIdentifier) and self.bound_argument_stack:
+            # only the parameters of the macro being expanded are in scope, not those of its callers
+            entry = self.bound_argument_stack[-1]
+            if (context, name) in entry:
+                return entry[(context, name)]
         # otherwise, try and find globally 
         if context not in [MacroArgumentKind.MACRO, MacroArgumentKind.LOOP, MacroArgumentKind.HOOK, MacroArgumentKind.OUT, MacroArgumentKind.FINISHCODE, MacroArgumentKind.YIELDCODE]:
             raise UndefinedReferenceError("named expression", from_tree)
